@@ -69,6 +69,13 @@ RECURSIVE InertSeq(_, _)
 InertNode(n) == n.k \notin {"comment", "env", "math"} /\ InertSeq(Kids(n), 1)
 InertSeq(ns, i) == IF i > Len(ns) THEN TRUE ELSE InertNode(ns[i]) /\ InertSeq(ns, i + 1)
 Inert(ns) == InertSeq(ns, 1)
+(* the same, except for constructs that lie entirely inside the replacement text of ONE input character (a table entry  *)
+(* such as \'{$\alpha$} opens and closes its own formula; nothing the input's characters wrote is involved)            *)
+RECURSIVE InertSeqX(_, _, _)
+InertNodeX(n, spans) == \/ (n.k \in {"comment", "env", "math"} /\ \E i \in DOMAIN spans : spans[i][1] <= n.pos /\ n.end <= spans[i][2])
+                        \/ (n.k \notin {"comment", "env", "math"} /\ InertSeqX(Kids(n), 1, spans))
+InertSeqX(ns, i, spans) == IF i > Len(ns) THEN TRUE ELSE InertNodeX(ns[i], spans) /\ InertSeqX(ns, i + 1, spans)
+InertExcept(ns, spans) == InertSeqX(ns, 1, spans)
 
 RECURSIVE Concat(_)
 Concat(sq) == IF sq = <<>> THEN <<>> ELSE Head(sq) \o Concat(Tail(sq))
